@@ -14,6 +14,7 @@ from .types import (
     TInt,
     TList,
     TMap,
+    TOMap,
     TOpt,
     TRec,
     TRef,
@@ -623,8 +624,13 @@ class CallMixin:
             for x in v:
                 s = s.add(self._elem(x, t.elem))
             return s
-        if isinstance(v, SDict) and not v.items and isinstance(t, TMap):
-            return t.empty()
+        if isinstance(v, SDict) and not v.items and isinstance(t, (TMap, TOMap)):
+            e = t.empty()
+            if isinstance(t, TOMap):
+                from . import specfn
+
+                self.st.pc.append(specfn.list_elems(t.keys(e)).t == z3.EmptySet(t.key.sort()))
+            return e
         if isinstance(v, (tuple, list)) and isinstance(t, TList):
             from . import specfn
 
